@@ -121,6 +121,10 @@ def advance (k : Nat) : Cur Unit := fun b n =>
 def splitTo (k : Nat) : Cur Buf := fun b n =>
   if k ≤ b.rem then .ok ⟨b.data.extract b.pos (b.pos + k), 0⟩ ⟨b.data, b.pos + k⟩ n else .panic "buf-split"
 
+/-- `buf[i]` on the unread part of a `Bytes` (indexing through `Deref<[u8]>`) -/
+def peek (i : Nat) : Cur Nat := fun b n =>
+  if h : b.pos + i < b.data.size then .ok (b.data[b.pos + i]).toNat b n else .panic "index"
+
 /-- `a[i]` -/
 def idx (a : Array UInt8) (i : Nat) : Cur Nat := fun b n =>
   if h : i < a.size then .ok (a[i]).toNat b n else .panic "index"
@@ -249,6 +253,13 @@ theorem safe_idx {B : Nat → Prop} {a : Array UInt8} {i : Nat} {Q b n} (hi : i 
   simp only [hi, dite_true]
   exact h _ (UInt8.toNat_lt _)
 
+theorem safe_peek {B : Nat → Prop} {i : Nat} {Q b n} (hi : i < b.rem)
+    (h : ∀ v, v < 256 → Q v b n) : safe B (peek i) Q b n := by
+  unfold safe peek
+  have : b.pos + i < b.data.size := by simp only [Buf.rem] at hi; omega
+  simp only [this, dite_true]
+  exact h _ (UInt8.toNat_lt _)
+
 theorem safe_slice {B : Nat → Prop} {a : Array UInt8} {i j : Nat} {Q b n} (hi : i ≤ j) (hj : j ≤ a.size)
     (h : ∀ s : Array UInt8, s.size = j - i → Q s b n) : safe B (slice a i j) Q b n := by
   unfold safe slice
@@ -315,6 +326,22 @@ theorem safe_loop {B : Nat → Prop} {body : σ → Cur (σ ⊕ β)} {Q : β →
       exact ih s' b' n' hr.1 (by omega)
     | inr r => exact safe_pure hr
 
+/-- digest of a byte array (driver output only) -/
+def foldA (a : Array UInt8) : Nat := a.foldl (fun acc x => (acc * 31 + x.toNat) % 4294967296) 7
+/-- digest of a list of numbers (driver output only) -/
+def foldL (l : List Nat) : Nat := l.foldl (fun acc x => (acc * 31 + x) % 4294967296) 7
+
+/-- `while buf.len() >= 2 { v.push(buf.get_u16()) }`; 2 bytes allocated per element -/
+def getU16sAll : Nat → Cur (List Nat)
+  | 0 => panicAt "hang"
+  | fuel + 1 => do
+    if (← remaining) ≥ 2 then
+      let v ← getU16
+      alloc 2
+      let r ← getU16sAll fuel
+      pure (v :: r)
+    else pure []
+
 /-- read `k` big-endian u32 values (`(0..k).map(|_| buf.get_u32()).collect()`) -/
 def getU32s : Nat → Cur (List Nat)
   | 0 => pure []
@@ -366,8 +393,26 @@ theorem safe_be32 {B : Nat → Prop} {a : Array UInt8} {i : Nat} {Q b n} (hi : i
   apply safe_bind; apply safe_idx (by omega); intro w hw
   apply safe_pure; apply h; omega
 
-attribute [irreducible] be16 be32 safe Cur.pure Cur.bind bail panicAt alloc remaining restSlice setBuf getBuf getBE getU8 getU16
-  getU24 getU32 getU48 getU64 advance splitTo idx slice sliceLen onBuf attemptD loopM getU32s
+theorem safe_getU16sAll {B : Nat} (fuel : Nat) {Q b n} (hf : b.rem < 2 * fuel) (hn : n + b.rem ≤ B)
+    (h : ∀ l b' n', n' ≤ n + b.rem → b'.rem < 2 → Q l b' n') : safe (· ≤ B) (getU16sAll fuel) Q b n := by
+  induction fuel generalizing b n Q with
+  | zero => omega
+  | succ fuel ih =>
+    unfold getU16sAll
+    apply safe_bind; apply safe_remaining
+    apply safe_ite <;> intro hc
+    · apply safe_bind; apply safe_getU16 (by omega); intro v b1 _ hb1
+      apply safe_bind; apply safe_alloc
+      apply safe_bind
+      apply ih (by omega) (by omega)
+      intro l b2 n2 hn2 hb2
+      apply safe_pure
+      apply h _ _ _ (by omega) hb2
+    · apply safe_pure
+      apply h _ _ _ (by omega) (by omega)
+
+attribute [irreducible] getU16sAll be16 be32 safe Cur.pure Cur.bind bail panicAt alloc remaining restSlice setBuf getBuf getBE getU8 getU16
+  getU24 getU32 getU48 getU64 advance splitTo peek idx slice sliceLen onBuf attemptD loopM getU32s
 
 /-- `omega` after reducing projections of tuple states -/
 macro "domega" : tactic => `(tactic| first | omega | (dsimp only <;> omega))
@@ -391,9 +436,11 @@ macro "cur_auto" : tactic => `(tactic| repeat' (first
   | (apply safe_getU48 (by omega); intro _ _ _ _)
   | (apply safe_getU64 (by omega); intro _ _ _ _)
   | (apply safe_getU32s _ (by omega); intro _ _ _ _)
+  | (apply safe_getU16sAll _ (by omega) (by omega); intro _ _ _ _ _)
   | (apply safe_advance (by omega); intro _ _)
   | (apply safe_splitTo (by omega); intro _ _ _ _)
   | (apply safe_idx (by omega); intro _ _)
+  | (apply safe_peek (by omega); intro _ _)
   | (apply safe_be16 (by omega); intro _ _)
   | (apply safe_be32 (by omega); intro _ _)
   | (apply safe_slice (by omega) (by omega); intro _ _)
